@@ -22,12 +22,17 @@ instance : WriteOK FSame :=
   { writeBack := fun s => by
       cases ht : s.cache.tag with
       | none => unfold Model.writeBack; rw [ht]; rfl
-      | some idx => rw [FBasic.writeBack_some s idx ht]; exact (devWrite_any idx s).2.2.2
+      | some idx =>
+        rw [Fault.writeBack_tagged ht]
+        show (untagIfErr _).2.dev.faults = _
+        rw [untagIfErr_dev]; exact (devWrite_any idx s).2.2.2
     writeBackWithDuplicate := fun d s => by
       cases ht : s.cache.tag with
       | none => rw [wbdup_none d s ht]; rfl
       | some idx =>
         rw [wbdup_some d idx s ht]
+        show (untagIfErr _).2.dev.faults = _
+        rw [untagIfErr_dev]
         exact F.Inv.bind (R := FSame) (fun s => (devWrite_any idx s).2.2.2) (fun _ s => (devWrite_any d s).2.2.2) s }
 
 def MFSame (a b : Mgr) : Prop := b.dev.faults = a.dev.faults
